@@ -168,9 +168,15 @@ class Interp:
                 out[first] = ClassV(func.cls)
             else:
                 out[first] = overrides.get(first, ObjV(func.cls, path=self_path))
+        from .symeval import new_parameters
+        fresh = set(new_parameters(func))
         for p in params + func.kwonly:
             if p in overrides:
                 out[p] = overrides[p]
+                continue
+            if p in fresh:
+                # a parameter added after the checks were validated: existing callers cannot pass it, it has its default
+                out[p] = self.eval(func.defaults[p], Frame(None, func.module, {}, func.cls))
                 continue
             ty = parse_type(self.repo, func.module, func.annotations.get(p), func.cls)
             out[p] = opaque_of(ty, p, self.ctx)
